@@ -75,6 +75,12 @@ pub fn limits_loco(pre: &Locomotive, post: &Locomotive, pwr: f64, dt: f64, f: &m
 pub fn oracle_loco2(st: &LocoStep, post: &Locomotive) -> (Vec<String>, Vec<String>) {
     let mut f = Vec::new(); let mut k = Vec::new();
     limits_loco(&st.pre, post, st.pwr, st.dt, &mut f, &mut k, "", true);
+    // with the engine off the shaft delivers nothing: the "previous shaft power" the next ramp-rate limit starts from is zero
+    if !st.engine_on {
+        if let PowertrainType::ConventionalLoco(c) = &post.loco_type {
+            if c.fc.state.pwr_brake.value != 0.0 { f.push(format!("engine off, yet the engine's shaft power is recorded as {} (the next step's ramp-rate limit starts from it)", c.fc.state.pwr_brake.value)); }
+        }
+    }
     (f, k)
 }
 pub fn oracle_consist(st: &ConsistStep, post: &Consist) -> (Vec<String>, Vec<String>) {
@@ -218,7 +224,8 @@ pub fn run(seed: u64, n: usize, sink: &mut Sink) {
     while made < n_loco {
         let loco = if t % 2 == 0 { rand_conv_loco(&mut r) } else { rand_bel_loco(&mut r) };
         // long traces: ramp and SOC-dependent limits move
-        let steps = loco_trace(&mut r, loco, 40.min(n_loco - made), false);
+        // every third trace may switch the engine off (and on again): the ramp limit after a shutdown starts from zero shaft power
+        let steps = loco_trace(&mut r, loco, 40.min(n_loco - made), t % 3 == 2);
         for (i, st) in steps.iter().enumerate() {
             sink.put(loco_step_case2(format!("loco_step/{}/{}", t, i), st, "loco_step", &oracle_loco2));
             made += 1;
